@@ -20,6 +20,7 @@ DEFAULT_STYLE: Dict[str, Any] = {
     "tabs": False,  # indent with one tab per level instead of spaces
     "mainmenu_indent": False,  # entries below `mainmenu` one level in (what kconfcheck's format rules ask for)
     "cont_levels": 2,  # extra levels of a backslash continuation line
+    "cont_multi": False,  # with "cont": wrap at up to three operators instead of the first one only
 }
 
 
@@ -115,9 +116,21 @@ class _R:
         if text and not help_text and not plain:
             self.nlines += 1
             if st.get("cont") and '"' not in text and "'" not in text and (" && " in text or " || " in text) and text.split(" ")[0] in ("depends", "if", "visible", "default", "range", "select", "imply"):
-                op = " && " if " && " in text else " || "
-                i = text.index(op) + len(op) - 1
-                text = text[:i] + " \\\n" + self.ind * (level + st.get("cont_levels", 2)) + text[i + 1 :]
+                pad = self.ind * (level + st.get("cont_levels", 2))
+                if st.get("cont_multi"):
+                    # wrap at (up to three) operators: a statement over three or four physical lines
+                    parts, rest = [], text
+                    while len(parts) < 3:
+                        cut = min([rest.index(o) + len(o) - 1 for o in (" && ", " || ") if o in rest] or [-1])
+                        if cut < 0:
+                            break
+                        parts.append(rest[:cut])
+                        rest = rest[cut + 1 :]
+                    text = (" \\\n" + pad).join(parts + [rest])
+                else:
+                    op = " && " if " && " in text else " || "
+                    i = text.index(op) + len(op) - 1
+                    text = text[:i] + " \\\n" + pad + text[i + 1 :]
             if st.get("trailing") and self.nlines % st["trailing"] == 0 and not text.endswith("\\") and "\n" not in text:
                 text += "  # trailing comment"
         out.append(self.ind * level + text if text else "")
